@@ -6,7 +6,7 @@ of constraint-handler invocations on the path and the code passed are compared w
 function's return convention.  Which inputs *are* violations is documentation, not code shape; what is decided is the iff between
 "an error indication is returned" and "the handler ran exactly once with that code"."""
 import os, sys
-from ..ir import Program
+from ..ir import Program, exit_line
 from ..lin import Lin
 from ..pathflags import Engine, BudgetExceeded
 from ..flags import HFlags
@@ -95,12 +95,7 @@ def worker(prog, name):
         def add(rule, text):
             key = "C05:%s:%s:ret=%s:%s" % (rule, base, d, "|".join(msgs))
             if key not in finds:
-                line = None
-                if path:
-                    for bb in reversed(path):
-                        t = fn.term(bb)
-                        if t.get("line"):
-                            line = t["line"]; break
+                line = exit_line(fn, path)
                 finds[key] = dict(key=key, rule=rule, where="%s:%s" % (fn.file, line), text="%s: %s (returns %s; handler messages on the path: %s)" % (base, text, d, list(msgs) or "none"),
                                   path=path[-12:] if path else None)
         if cnt >= 2:
